@@ -71,7 +71,7 @@ silent("repeat-const-conservative", ["C13", "C07"], E("src/analyze.rs", "       
 silent("repeat-min-branchy", ["C13", "C07"], E("src/analyze.rs", "                min_size = child_info.min_size.saturating_mul(lo);", "                min_size = if lo == 0 { 0 } else { child_info.min_size.saturating_mul(lo) };"))
 # ---------------- slots / tables
 fire("delegate-slot-odd", ["C02"], "outer slot pair", E("src/vm.rs", "let slot = (start_group + i) * 2;", "let slot = (start_group + i) * 2 + 1;"))
-fire("delegate-unset-half", ["C02"], "unmatched inner group", E("src/vm.rs", "                                    state.save(slot, usize::MAX);\n                                    state.save(slot + 1, usize::MAX);", "                                    state.save(slot, usize::MAX);"))
+fire("delegate-reset-unmatched", ["C02", "C03"], "must keep its span", E("src/vm.rs", "                                    state.save(slot + 1, end.get());\n                                }", "                                    state.save(slot + 1, end.get());\n                                } else {\n                                    state.save(slot, usize::MAX);\n                                    state.save(slot + 1, usize::MAX);\n                                }"))
 fire("delegate-inner-index", ["C02"], "2*(i+1)", E("src/vm.rs", "if let Some(start) = inner_slots[(i + 1) * 2] {", "if let Some(start) = inner_slots[i * 2] {"))
 fire("truncate-more", ["C02", "C16"], "truncated", E("src/lib.rs", "saves.truncate(n_groups * 2);", "saves.truncate(n_groups * 2 + 2);"))
 fire("delegate-unanchored", ["C01", "C02", "C03"], "anchored", E("src/vm.rs", "let input = Input::new(s).span(ix..s.len()).anchored(Anchored::Yes);", "let input = Input::new(s).span(ix..s.len());"))
